@@ -506,6 +506,9 @@ class Interp:
                 if any(norm(d) == 'classmethod' for d in fn.node.decorator_list):
                     return Closure(fn.node, {}, ('class', base[1]), fn.cls)
                 return Closure(fn.node, {}, None, fn.cls)
+            if isinstance(base, Ref) and ('.' + e.attr) in h.hooks and isinstance(e.ctx, ast.Load):
+                # a method the scenario supplies, taken as a value (`iter(self.readline, b'')`): bound to its receiver
+                return ('partial', ('hook', '.' + e.attr), [base], {})
             if isinstance(base, tuple) and base and base[0] == 'regex':
                 return ('regexmethod', base, e.attr)
             if isinstance(base, tuple) and base and base[0] == 'record' and e.attr in base[2]:
@@ -875,6 +878,15 @@ class Interp:
                 r0 = SStr(h.objs[b0.name]['parts'])
                 c0 = r0.concrete()
                 return c0 if c0 is not None else r0
+        if isinstance(fn, ast.Name) and fn.id == 'iter' and len(args) == 2 and 'iter' not in env:
+            # iter(callable, sentinel): the results of the calls up to the first one that equals the sentinel
+            out_ = []
+            for _k in range(10000):
+                r_ = self.apply(args[0], [])
+                if self.same_value(r_, args[1]):
+                    return h.new_list(out_)
+                out_.append(r_)
+            raise AnalysisError('heap model: iter(callable, sentinel) does not end')
         if isinstance(fn, ast.Name) and fn.id in ('list', 'tuple', 'iter') and len(args) == 1:
             items = self.seq(args[0])
             return h.new_list(items) if fn.id == 'list' else (tuple(items) if fn.id == 'tuple' else items)
